@@ -901,3 +901,13 @@ Theorem hs_t1_fail_time_default :
   map (hs_t1_expiry_time 1000 60000) [1; 2; 3; 4; 5; 6; 7; 8; 9]%nat =
     [1000; 3000; 7000; 15000; 31000; 63000; 123000; 183000; 243000].
 Proof. vm_compute. split; reflexivity. Qed.
+
+(* updateInterleavingState, for arbitrary peer capabilities (also those a foreign implementation may announce) *)
+Lemma hs_update_il_consistent : forall e,
+  let e' := hs_update_il e in
+  hs_uil e' = hs_lil e && hs_pil e /\
+  (hs_ufwd e' = true -> hs_uil e' = false) /\ (hs_uifwd e' = true -> hs_uil e' = true).
+Proof.
+  intros e. unfold hs_update_il. destruct (hs_lil e && hs_pil e) eqn:E; destruct e; cbn in *; rewrite ?E;
+    repeat split; try reflexivity; try discriminate; auto.
+Qed.
